@@ -382,6 +382,8 @@ Definition is_min (v : Z) (l : list Z) : Prop := In v l /\ forall x, In x l -> v
 Definition is_max (v : Z) (l : list Z) : Prop := In v l /\ forall x, In x l -> x <= v.
 
 Definition zsum (l : list Z) : Z := fold_right Z.add 0 l.
+(* the chunk sizes of one dimension: the single empty chunk (0,), or a non-empty list of positive sizes *)
+Definition proper_dim (l : list Z) : Prop := l = [0] \/ (l <> [] /\ Forall (fun s => 0 < s) l).
 
 (* seq_num s is among the pairs zip(range(seq), range(idx)) written for datum d *)
 Definition covers (d : datum) (s : Z) : bool :=
